@@ -55,8 +55,26 @@ Proof.
   pose proof (sq_le_of _ _ H3 H2). lra.
 Qed.
 
+Lemma pstrip_spec (a b : positive) :
+  (Zpos a * Zpos (snd (pstrip a b)) = Zpos (fst (pstrip a b)) * Zpos b)%Z.
+Proof.
+  revert b. induction a as [a IH|a IH|]; intro b; try reflexivity.
+  destruct b as [b|b|]; try reflexivity.
+  cbn [pstrip]. specialize (IH b). lia.
+Qed.
+
+Lemma qnorm_correct (q : Q) : qnorm q == q.
+Proof.
+  destruct q as [n d]. unfold qnorm. cbn [Qnum Qden]. destruct n as [|a|a].
+  - reflexivity.
+  - pose proof (pstrip_spec a d) as H. destruct (pstrip a d) as [a' b']. cbn [fst snd] in H.
+    unfold Qeq. cbn [Qnum Qden]. lia.
+  - pose proof (pstrip_spec a d) as H. destruct (pstrip a d) as [a' b']. cbn [fst snd] in H.
+    unfold Qeq. cbn [Qnum Qden]. lia.
+Qed.
+
 Lemma sumsq_nonneg (a : vec) : 0 <= sumsq a.
-Proof. induction a as [|x a IH]; cbn [sumsq]; [lra|]. rewrite Qred_correct. pose proof (sqnn x). lra. Qed.
+Proof. induction a as [|x a IH]; cbn [sumsq]; [lra|]. rewrite qnorm_correct. pose proof (sqnn x). lra. Qed.
 
 (* Cauchy-Schwarz over lists of rationals: (sum a_i b_i)^2 <= (sum a_i^2)(sum b_i^2) *)
 Lemma cauchy_schwarz (a b : vec) : dot a b * dot a b <= sumsq a * sumsq b.
@@ -65,7 +83,7 @@ Proof.
   - cbn [dot sumsq]. lra.
   - destruct b as [|y b].
     + cbn [dot]. change (sumsq []) with 0. lra.
-    + cbn [dot sumsq]. rewrite !Qred_correct. apply cs_step; [apply sumsq_nonneg|apply sumsq_nonneg|apply IH].
+    + cbn [dot sumsq]. rewrite !qnorm_correct. apply cs_step; [apply sumsq_nonneg|apply sumsq_nonneg|apply IH].
 Qed.
 
 Lemma dot_nil_r (a : vec) : dot a [] = 0.
@@ -80,13 +98,13 @@ Proof.
   - cbn [firstn skipn dot]. lra.
   - destruct a as [|x a]; [cbn [firstn skipn dot]; lra|].
     destruct b as [|y b]; [cbn [firstn skipn]; rewrite !dot_nil_r; lra|].
-    cbn [firstn skipn dot]. rewrite !Qred_correct. rewrite (IH a b). lra.
+    cbn [firstn skipn dot]. rewrite !qnorm_correct. rewrite (IH a b). lra.
 Qed.
 
 Lemma l2sq_nonneg (a b : vec) : 0 <= l2sq a b.
 Proof.
   revert b. induction a as [|x a IH]; intro b; [cbn [l2sq]; lra|].
-  destruct b as [|y b]; cbn [l2sq]; [lra|]. rewrite Qred_correct. pose proof (sqnn (x - y)). pose proof (IH b). lra.
+  destruct b as [|y b]; cbn [l2sq]; [lra|]. rewrite qnorm_correct. pose proof (sqnn (x - y)). pose proof (IH b). lra.
 Qed.
 
 Lemma l2sq_prefix_le (p : nat) (a b : vec) : l2sq (firstn p a) (firstn p b) <= l2sq a b.
@@ -95,7 +113,7 @@ Proof.
   - cbn [firstn l2sq]. apply l2sq_nonneg.
   - destruct a as [|x a]; [cbn [firstn l2sq]; lra|].
     destruct b as [|y b]; [cbn [firstn]; rewrite !l2sq_nil_r; lra|].
-    cbn [firstn l2sq]. rewrite !Qred_correct. pose proof (IH a b). lra.
+    cbn [firstn l2sq]. rewrite !qnorm_correct. pose proof (IH a b). lra.
 Qed.
 
 (* ---- the four surd cases of the cosine prefilter and the inner-product case ---- *)
